@@ -4,7 +4,9 @@
  *
  *   ir= or=              input / output rate (doubles)
  *   recipe= qflags=      arguments of soxr_quality_spec();  prec= phase= pb= sb=  override fields of the quality spec
- *   itype= otype=        soxr_datatype_t (0 float32, 1 float64, 2 int32, 3 int16), interleaved
+ *   itype= otype=        soxr_datatype_t (0 float32, 1 float64, 2 int32, 3 int16), interleaved on stdin / stdout
+ *   split=               bit 0: hand the input to the library as SOXR_SPLIT (one buffer per channel), bit 1: the output likewise
+ *                        (the harness (de)interleaves, stdin / stdout stay interleaved)
  *   scale=               io_spec.scale;   ioflags= io_spec.flags (8 = no dither)
  *   rtflags= min= large= kb=   runtime spec;   ch= channels;   block= input frames per soxr_process call
  *   plan=1               print the plan only (no signal is processed)
@@ -66,6 +68,13 @@ static void print_plan(soxr_t S)
   }
 }
 
+static void * * iptr_at(void * * ptrs, unsigned char * * bufs, unsigned ch, size_t byte_off)
+{
+  unsigned c;
+  for (c = 0; c < ch; ++c) ptrs[c] = bufs[c] + byte_off;
+  return ptrs;
+}
+
 int main(int argc, char * * argv)
 {
   soxr_quality_spec_t q; soxr_io_spec_t io; soxr_runtime_spec_t rt; soxr_error_t err = 0; soxr_t S;
@@ -73,14 +82,16 @@ int main(int argc, char * * argv)
   unsigned ch = (unsigned)kvu(argc, argv, "ch", 1);
   int itype = (int)kvu(argc, argv, "itype", SOXR_FLOAT64_I), otype = (int)kvu(argc, argv, "otype", SOXR_FLOAT64_I);
   size_t block = (size_t)kvu(argc, argv, "block", 1 << 16), isz, osz, n_in = 0, cap = 0, pos = 0, n_out = 0, ocap;
-  unsigned char * in = 0, * out; char const * eng; int is_cr;
+  unsigned char * in = 0, * out; char const * eng; int is_cr, split; unsigned c;
+  unsigned char * * ich = 0, * * och = 0; void * * iptr = 0, * * optr = 0; size_t is1, os1;
 
   q = soxr_quality_spec(kvu(argc, argv, "recipe", SOXR_HQ), kvu(argc, argv, "qflags", 0));
   if ((v = kvd(argc, argv, "phase", -1)) >= 0) q.phase_response = v;
   if ((v = kvd(argc, argv, "prec", -1)) >= 0) q.precision = v;
   if ((v = kvd(argc, argv, "pb", -1)) >= 0) q.passband_end = v;
   if ((v = kvd(argc, argv, "sb", -1)) >= 0) q.stopband_begin = v;
-  io = soxr_io_spec((soxr_datatype_t)itype, (soxr_datatype_t)otype);
+  split = (int)kvu(argc, argv, "split", 0);
+  io = soxr_io_spec((soxr_datatype_t)(itype | ((split & 1)? SOXR_SPLIT : 0)), (soxr_datatype_t)(otype | ((split & 2)? SOXR_SPLIT : 0)));
   io.scale = kvd(argc, argv, "scale", 1); io.flags = kvu(argc, argv, "ioflags", 0);
   rt = soxr_runtime_spec(1);
   rt.log2_min_dft_size = (unsigned)kvu(argc, argv, "min", rt.log2_min_dft_size);
@@ -112,20 +123,37 @@ int main(int argc, char * * argv)
   out = malloc(ocap * osz + 16);
   if (!out) return 2;
 
+  is1 = isz / ch; os1 = osz / ch;
+  if (split & 1) {        /* one buffer per channel */
+    size_t i;
+    ich = malloc(sizeof(*ich) * ch); iptr = malloc(sizeof(*iptr) * ch);
+    for (c = 0; c < ch; ++c) {
+      ich[c] = malloc(n_in * is1 + 16);
+      for (i = 0; i < n_in; ++i) memcpy(ich[c] + i * is1, in + (i * ch + c) * is1, is1);
+    }
+  }
+  if (split & 2) {
+    och = malloc(sizeof(*och) * ch); optr = malloc(sizeof(*optr) * ch);
+    for (c = 0; c < ch; ++c) och[c] = malloc(ocap * os1 + 16);
+  }
+  #define IN_AT(p_)  ((split & 1)? (void *)(iptr_at(iptr, ich, ch, (p_) * is1)) : (void *)(in + (p_) * isz))
+  #define OUT_AT(p_) ((split & 2)? (void *)(iptr_at(optr, och, ch, (p_) * os1)) : (void *)(out + (p_) * osz))
+
   while (pos < n_in) {
     size_t n = n_in - pos < block? n_in - pos : block, idone = 0, odone = 0;
-    err = soxr_process(S, in + pos * isz, n, &idone, out + n_out * osz, ocap - n_out, &odone);
+    err = soxr_process(S, IN_AT(pos), n, &idone, OUT_AT(n_out), ocap - n_out, &odone);
     if (err) { printf("ERROR process %s\nEND\n", err); return 0; }
     pos += idone; n_out += odone;
     if (!idone && !odone && n_out >= ocap) break;
   }
   for (;;) { /* end of input: drain */
     size_t odone = 0;
-    err = soxr_process(S, 0, 0, 0, out + n_out * osz, ocap - n_out, &odone);
+    err = soxr_process(S, 0, 0, 0, OUT_AT(n_out), ocap - n_out, &odone);
     if (err) { printf("ERROR flush %s\nEND\n", err); return 0; }
     n_out += odone;
     if (!odone) break;
   }
+  if (split & 2) { size_t i; for (c = 0; c < ch; ++c) for (i = 0; i < n_out; ++i) memcpy(out + (i * ch + c) * os1, och[c] + i * os1, os1); }
   printf("R in=%zu out=%zu clips=%zu\n", n_in, n_out, *soxr_num_clips(S));
   printf("END\n");
   fwrite(out, osz, n_out, stdout);
